@@ -211,6 +211,28 @@ class CSSNamespaceRule(cssrule.CSSRule):
                     'CSSNamespaceRule: No ";" found: %s' % self._valuestr(cssText)
                 )
 
+            # a rule which is in a sheet must not take a prefix which another
+            # @namespace rule of that sheet uses (see _setPrefix)
+            sheet = self.parentStyleSheet
+            if (
+                wellformed
+                and sheet is not None
+                and new['prefix'] != self._prefix
+                and any(r is self for r in sheet.cssRules)
+                and any(
+                    r is not self
+                    and r.type == r.NAMESPACE_RULE
+                    and r.prefix == new['prefix']
+                    for r in sheet.cssRules
+                )
+            ):
+                wellformed = False
+                self._log.error(
+                    'CSSNamespaceRule: Prefix "%s" is already used in this sheet.'
+                    % new['prefix'],
+                    error=xml.dom.NoModificationAllowedErr,
+                )
+
             # set all
             if wellformed:
                 # may raise if a different namespaceURI is set already,
